@@ -2765,7 +2765,8 @@ class C05(Prop):
 
   def store_oracle(self, case, outs, label):
     f = self.store_oracle_(case, outs, label)
-    if f and case.get('rel') and label == 'std' and not f['signature'].startswith('store:bare-file-name'):
+    if (f and case.get('rel') and label == 'std' and not f['signature'].startswith('store:bare-file-name')
+        and f['signature'] not in ('store:record-with-newline', 'store:record-with-cr-on-std-fs')):     # F13d / F13e
       import re
       m = re.search(r'op (\d+)', f['what'])
       if m and norm_path(case['ops'][int(m.group(1))]['p']) == ('mem',):
